@@ -294,6 +294,12 @@ impl Rw {
                     return syn::parse2(quote! { (#x).rws_chars_rev_collect() }).ok();
                 }
             }
+            // X.chars().collect::<Vec<char>>()   (only the Vec<char> target is supported)
+            if let Some(ch) = Self::is_method(recv, "chars", 0) {
+                let x = &ch.receiver;
+                self.log("R-SHIM", sp, ".chars().collect() -> rws_chars_collect");
+                return syn::parse2(quote! { (#x).rws_chars_collect() }).ok();
+            }
             // X.split(p).collect()
             if let Some(sp_call) = Self::is_method(recv, "split", 1) {
                 let x = &sp_call.receiver;
